@@ -61,6 +61,10 @@ type obs struct {
 	firstT  int64
 	lastT   int64
 	nListed int
+	firstP  string // id of the oldest and of the newest Period
+	lastP   string
+	oldEnd  string // per timeline adaptation set: first listed time and number of entries
+	newEnd  string // per timeline adaptation set: last listed time
 }
 
 type sweep struct {
@@ -177,17 +181,28 @@ func run(c *lib.Ctx) error {
 			if k < 3 {
 				cfg = lib.TLCfg{Snr: -1, Tsbd: -1, Mode: modes[k]}
 			}
+			if k == 4 {
+				// an offset whose float64 form times 1000 lies just below a whole millisecond (1.001, 1.005, ...)
+				if tr := lib.TruncatingAtoMS(segMS); len(tr) > 0 {
+					cfg = lib.TLCfg{Snr: -1, Tsbd: -1, Mode: modes[rng.Intn(2)], AtoMS: tr[rng.Intn(len(tr))]}
+				}
+			}
 			if k == 3 {
 				// an offset that reaches more than a whole loop ahead
 				cfg = lib.TLCfg{Snr: -1, Tsbd: -1, Mode: modes[rng.Intn(2)], AtoMS: a.LoopMS*(1+rng.Int63n(2)) + segMS + segMS/2}
 			}
+			if k == 5 && 120000%segMS == 0 && a.LoopMS%N == 0 {
+				// periods with an offset below a segment: a new, still empty Period appears at its start while
+				// the newest segment became available a little earlier
+				cfg = lib.TLCfg{StartS: []int64{0, 30}[rng.Intn(2)], Snr: -1, Tsbd: []int64{-1, 10}[rng.Intn(2)], Mode: modes[rng.Intn(2)], AtoMS: segMS / 4, Extra: "periods_30/"}
+			}
 			s := &sweep{ls: lsOf[a], a: a, cfg: cfg, avail: map[int64]int64{}}
-			if k > 3 && rng.Intn(4) == 0 {
+			if k > 3 && k != 5 && rng.Intn(4) == 0 {
 				// a stop time a few segments after the swept range begins
 				s.stopS = cfg.StartS + 3*a.LoopMS/1000 + rng.Int63n(20)
 				s.cfg.Extra = fmt.Sprintf("stop_%d/", s.stopS)
 			}
-			if k > 3 && s.stopS == 0 && rng.Intn(5) == 0 && 120000%segMS == 0 && a.LoopMS%N == 0 {
+			if k > 3 && k != 5 && s.stopS == 0 && rng.Intn(3) == 0 && 120000%segMS == 0 && a.LoopMS%N == 0 {
 				s.cfg.Extra = "periods_30/" // 120 s periods: a multiple of the segment duration
 			}
 			// stream start, around the first wraps, weeks in, and the years 2030 / 2040 (64-bit products)
@@ -218,6 +233,13 @@ func run(c *lib.Ctx) error {
 				add(w - 1)
 				add(w)
 				add(w + 1)
+				// the next period boundary (a new Period appears there)
+				if pm := periodMS(s.cfg.Extra); pm > 0 {
+					B := s0 + (b-s0+pm-1)/pm*pm
+					add(B - 1)
+					add(B)
+					add(B + 1)
+				}
 			}
 			if s.stopS > 0 {
 				add(s.stopS*1000 - 1)
@@ -252,7 +274,7 @@ func run(c *lib.Ctx) error {
 	for si, s := range sweeps {
 		evalSweep(c, s, si, distinct, func(o *obs) {
 			// correspondence case: publishTime and live edge of the model
-			if s.cfg.Mode == "number" || s.stopS > 0 || strings.Contains(s.cfg.Extra, "periods") || o.mo.Status != 200 {
+			if s.cfg.Mode == "number" || s.stopS > 0 || strings.Contains(s.cfg.Extra, "periods") || o.mo.Status != 200 || !sameGrid(s.a) {
 				return
 			}
 			ref := s.a.Ref()
@@ -308,6 +330,38 @@ func fetchSweep(ls *lib.Livesim, s *sweep) {
 		if mo.Status == 200 {
 			o.content = publishRe.ReplaceAllString(string(mo.Body), "")
 			// the video adaptation set of the last period carries the live edge, the first period the old end
+			if len(mo.Periods) > 0 {
+				o.firstP, o.lastP = mo.Periods[0].ID, mo.Periods[len(mo.Periods)-1].ID
+			}
+			// old and new end of every adaptation set with a timeline (over all periods)
+			{
+				type ends struct {
+					first, last int64
+					n           int
+				}
+				per := map[string]*ends{}
+				var order []string
+				for _, p := range mo.Periods {
+					for ai, as := range p.AS {
+						if !as.HasTimeline || len(as.Timeline) == 0 {
+							continue
+						}
+						key := fmt.Sprintf("%d:%s", ai, as.ContentType)
+						e := per[key]
+						if e == nil {
+							e = &ends{first: as.Timeline[0].T}
+							per[key] = e
+							order = append(order, key)
+						}
+						e.n += len(as.Timeline)
+						e.last = as.Timeline[len(as.Timeline)-1].T
+					}
+				}
+				for _, k := range order {
+					o.oldEnd += fmt.Sprintf("%s=%d/%d;", k, per[k].first, per[k].n)
+					o.newEnd += fmt.Sprintf("%s=%d;", k, per[k].last)
+				}
+			}
 			for pi, p := range mo.Periods {
 				for _, as := range p.AS {
 					if as.ContentType != "video" || !as.HasTimeline {
@@ -442,7 +496,8 @@ func evalSweep(c *lib.Ctx, s *sweep, si int, distinct map[string]bool, each func
 			if q.content != o.content {
 				pin := in
 				pin.PrevMS, pin.PrevURL, pin.Check = q.now, q.url, "publish-identifies"
-				pin.WindowOnly = q.lastT == o.lastT
+				// only the old end moved: same live edge, another first entry or fewer entries
+				pin.WindowOnly = q.newEnd == o.newEnd && q.lastP == o.lastP && (q.oldEnd != o.oldEnd || q.firstP != o.firstP)
 				pin.AcrossStop = s.stopS > 0 && q.now <= s.stopS*1000 && o.now > s.stopS*1000
 				key := "same-publish-different-mpd"
 				switch {
@@ -476,7 +531,7 @@ func evalSweep(c *lib.Ctx, s *sweep, si int, distinct map[string]bool, each func
 			pin := in
 			pin.Check = "publish-is-last-change"
 			pin.PrevMS = runFrom
-			pin.WindowOnly = prev != nil && prev.lastT == o.lastT && o.now == runFrom
+			pin.WindowOnly = prev != nil && prev.newEnd == o.newEnd && prev.lastP == o.lastP && (prev.oldEnd != o.oldEnd || prev.firstP != o.firstP) && o.now == runFrom
 			key := "publish-not-last-change"
 			pin.AtoPeriodGap = gap(o.now) && o.now == runFrom
 			switch {
@@ -518,4 +573,28 @@ func gapSfx(b bool) string {
 		return ":ato-period-gap"
 	}
 	return ""
+}
+
+// sameGrid: every video/text representation of the asset has the reference's segment boundaries (in ms), so
+// that publishTime - the latest change of any adaptation set - is the reference's edge availability, which
+// is what the model states. Assets with another grid are judged by the relational oracles only.
+func sameGrid(a *lib.TLAsset) bool {
+	ref := a.Ref()
+	if ref == nil {
+		return false
+	}
+	for _, r := range a.Reps {
+		if r.Kind == "audio" || r.Kind == "image" {
+			continue
+		}
+		if len(r.Segs) != len(ref.Segs) {
+			return false
+		}
+		for i := range r.Segs {
+			if r.Segs[i].End*ref.Timescale != ref.Segs[i].End*r.Timescale {
+				return false
+			}
+		}
+	}
+	return true
 }
